@@ -11,6 +11,15 @@ CHECKS = {
     "C01": ("exploration", "runtime monitoring: reference-model oracle (independent strict JSON reader) over generated streams run through the real jawk::go",
             "Every generated stream is executed by the real code and its stdout is decided by an independent reader against the values that were spelt; reach comes from seeded diversity of values, spellings and separators (10^4-10^6 streams), not from enumeration.",
             "Trusts vf/jsonmodel.py (strict reader, spelling generator, cross-checked against Python's json in the self-test) and Python float()/Fraction; held only on the streams generated.", "5 C01"),
+    "C02": ("exploration", "runtime monitoring: strict-reader and layout oracles on stdout bytes of real runs in all styles; metamorphic second pass (fixpoint)",
+            "Real executions for 3 styles x 2 utf8 settings x 9 row separators per generated value set; every row is read back by an independent strict reader, layout predicates are evaluated on the raw bytes, and the output is fed back for the fixpoint.",
+            "Trusts the strict reader and the pretty-layout checker; fixpoint demanded for whitespace separators and the identity pipeline only; open known findings astral-escape and nonfinite-number are matched by exact defect models.", "5 C02"),
+    "C06": ("exploration", "runtime monitoring: differential oracle (noisy run vs noise-free run of the same build) plus per-policy stream predicates at the stdout/stderr/Result boundary",
+            "Each generated noisy stream is run under all four policies and compared with the run on the noise-free stream; panic policy additionally bounded by bytes pulled from the instrumented reader.",
+            "Garbage tokens contain no CR/LF, so an error: line is one line; the text and position of error lines are not demanded (the property does not fix them).", "5 C06"),
+    "C16": ("fault_enumeration", "runtime monitoring with fault injection: hard read error at every input offset and hard write error at every output offset of each generated run, observed at the instrumented Read/Write boundary",
+            "For every generated input the fault point ranges over all byte offsets of the input (read) and of the fault-free output (write, also stderr), each a real execution; the oracle demands Err, no panic, no read after the error and prefix-of-fault-free output.",
+            "Inputs, pipelines and policies are sampled (exhaustive over offsets, not over inputs); file read faults are not injectable at this boundary.", "5 C16"),
 }
 
 PENDING_REASON = "check not built yet in this session (see DESIGN.md section 5 for the planned monitor)"
